@@ -55,6 +55,9 @@ def gen_refine(rng):
     case["hpolicy"] = rng.choice(["fixed", "on_event", "before_event", "after_event", "at_tmin"])
     case["hpick"] = rng.random()
     case["sis_unfiltered"] = rng.random() < 0.5
+    # a fifth of the cases place one attempt at absolute time exactly 0.0 (tmin = -delay of one attempt
+    # of an initially infected node): zero is a perfectly good time
+    case["zero_hit"] = rng.random() < 0.2
     return case
 
 
@@ -75,6 +78,19 @@ def ref_run(case, labels, tmax):
 
 def one_refine(case):
     G, labels = cases.build_graph(case["graph"])
+    if case.get("zero_hit") and not case.get("_zero_done"):
+        tabs0 = simcases.Tables(case, labels)
+        adj0 = adjacency(case["graph"])
+        cand = []
+        for u in case["I0"]:
+            for v, _ in adj0[u]:
+                ds = tabs0.sis_delays_k(u, v, 0)
+                if not case.get("sis_unfiltered"):
+                    ds = [d for d in ds if d < tabs0.sis_duration_k(u, 0)]
+                cand.extend(ds)
+        if cand:
+            d = cand[int(case["hpick"] * len(cand)) % len(cand)]
+            case = dict(case, tmin=-d, _zero_done=True)
     tmin = case["tmin"]
     long_events, _ = ref_run(case, labels, tmin + case["span"])
     times = [e[0] for e in long_events]
